@@ -278,6 +278,8 @@ class CFG:
 
     def _block(self, stmts, nxt, ctx, tag=''):
         for st in reversed(stmts):
+            if isinstance(st, ast.Expr) and isinstance(st.value, ast.Constant):
+                continue        # docstrings / bare literals
             nxt = self._stmt(st, nxt, ctx, tag)
         return nxt
 
